@@ -163,3 +163,13 @@ package oci
 //@   ensures [C07:indexed-after-successful-push] result == nil ==> K(expected) in s.graph.nodes
 //@   ensures [C06:manifest-tagged-by-digest] result == nil && isManifestType(expected) ==> expected.Digest in s.tagResolver.index && s.tagResolver.index[expected.Digest] == expected
 //@   ensures [C06,C07:ri] storeRI(s) && s.graph == old(s.graph) && s.tagResolver == old(s.tagResolver)
+//@
+//@ func (*Store).writeIndexFile
+//@   requires [wf] s != nil
+//@   call os.WriteFile requires [C10:index-replaced-by-rename-only] args.name != s.indexPath
+//@   call os.Rename requires [C10:index-replaced-by-rename-only] args.newpath == s.indexPath && wroteTemp && args.oldpath == tempName
+//@   call os.WriteFile set wroteTemp = result == nil
+//@   call os.WriteFile set tempName = args.name
+//@   entry set wroteTemp = false
+//@ ghost local wroteTemp bool
+//@ ghost local tempName string
